@@ -33,19 +33,20 @@
 
 
 int reb_particle_diff(struct reb_particle p1, struct reb_particle p2){
+    // Compare bit patterns (not values): NaN equals NaN, +0. differs from -0.
     int differ = 0;
-    differ = differ || (p1.x != p2.x);
-    differ = differ || (p1.y != p2.y);
-    differ = differ || (p1.z != p2.z);
-    differ = differ || (p1.vx != p2.vx);
-    differ = differ || (p1.vy != p2.vy);
-    differ = differ || (p1.vz != p2.vz);
-    differ = differ || (p1.ax != p2.ax);
-    differ = differ || (p1.ay != p2.ay);
-    differ = differ || (p1.az != p2.az);
-    differ = differ || (p1.m != p2.m);
-    differ = differ || (p1.r != p2.r);
-    differ = differ || (p1.last_collision != p2.last_collision);
+    differ = differ || memcmp(&p1.x, &p2.x, sizeof(double));
+    differ = differ || memcmp(&p1.y, &p2.y, sizeof(double));
+    differ = differ || memcmp(&p1.z, &p2.z, sizeof(double));
+    differ = differ || memcmp(&p1.vx, &p2.vx, sizeof(double));
+    differ = differ || memcmp(&p1.vy, &p2.vy, sizeof(double));
+    differ = differ || memcmp(&p1.vz, &p2.vz, sizeof(double));
+    differ = differ || memcmp(&p1.ax, &p2.ax, sizeof(double));
+    differ = differ || memcmp(&p1.ay, &p2.ay, sizeof(double));
+    differ = differ || memcmp(&p1.az, &p2.az, sizeof(double));
+    differ = differ || memcmp(&p1.m, &p2.m, sizeof(double));
+    differ = differ || memcmp(&p1.r, &p2.r, sizeof(double));
+    differ = differ || memcmp(&p1.last_collision, &p2.last_collision, sizeof(double));
     differ = differ || (p1.hash != p2.hash);
     return differ;
 }
